@@ -2900,3 +2900,45 @@ def t_cpp_word_split(facts, res, tier):
             res.fail("T-CPP-WORD-SPLIT:process:separator", facts.where(fn, x), "process() finds the directive word with `%s` and cuts its operand off with `%s`: a line whose name is followed by another white-space character is recognised and then found to have no operand (or no known name)" % (word, sep))
     if n == 0:
         raise AnchorMissing("process(): no splitn(2, ..) of a directive line")
+
+
+CPP_STRUCTURAL = {"#if", "#elif", "#else", "#endif", "#ifdef", "#ifndef"}
+
+
+@rule("T-CPP-SKIPPED-SILENT", floor=7,
+      text="a line of a region that is not selected has no effect.  In the dispatch of process() on the directive name, the arms of the directives "
+           "that do not belong to the conditional structure itself (#include, #error, and the catch-all for an unknown name) raise their errors "
+           "only where `state == State::Active` is known: `#if 0` / `#pragma once` / `#endif` compiles")
+def t_cpp_skipped_silent(facts, res, tier):
+    from scopes import scoped
+    fn = facts.fn("process", "")
+    info = {}
+    for node, env, doms in scoped(fn):
+        info[id(node)] = doms
+    n = 0
+    for m in walk(fn["body"]):
+        if m.get("k") != "match" or expr_text(m["e"]).replace(" ", "") != "name":
+            continue
+        lits = [pat_text(a["pat"]).replace(" ", "") for a in m["arms"]]
+        if '"#include"' not in lits:
+            continue
+        for a in m["arms"]:
+            pt = pat_text(a["pat"]).replace(" ", "")
+            if pt.strip('"') in CPP_STRUCTURAL:
+                continue
+            errs = []
+            for x in walk(a["body"]):
+                if x.get("k") == "return" and "Err(" in expr_text(x.get("e") or {}).replace(" ", "")[:6]:
+                    errs.append(x)
+                elif x.get("k") == "try" and x["e"].get("k") == "mcall" and x["e"]["method"] in ("ok_or_else", "ok_or", "map_err"):
+                    errs.append(x)
+            for x in errs:
+                n += 1
+                key = "T-CPP-SKIPPED-SILENT:%s" % pt.strip('"')
+                doms = info.get(id(x), [])
+                active = any(d[0] == "cond" and d[2] and expr_text(d[1]).replace(" ", "").strip("()") == "state==State::Active" for d in doms)
+                res.inst(key, True, {"directive": pt, "where": facts.where(fn, x), "under_active": active})
+                if not active:
+                    res.fail(key, facts.where(fn, x), "process() raises an error in the arm %s of the directive dispatch without knowing that the region is selected: a line of a skipped region stops the compilation" % pt)
+    if n == 0:
+        raise AnchorMissing("process(): the dispatch on the directive name was not found")
